@@ -172,3 +172,17 @@ if "C13f" in which:
         ("c13f_example", "exk_theorem_instance", "Non-vacuity, instantiated: costs [per-share 1; flat 25; flat 5], budget 10 000, price 99: 99 shares, outlay 9 930.", True),
         ("c13f_why_whole_units", "exp_percentage_tight", "Why percentage costs stay over the reals: with a percentage of 2^-60, budget 1000, price 1, binary64 computes 1 - 2^-60 = 1, buys 1000 shares, and the fee is a positive number that binary64 then adds back to exactly 1000: the inequality of C13 holds of the floats and fails of the reals by 8.7e-16.", True),
     ])
+
+IMPF11 = IMPF10.replace("Proofs.FloatLiq.", "Proofs.FloatLiq Proofs.FloatCost Proofs.FloatValue.")
+if "C11f" in which:
+    gen("C11float", "C11's valuation identities AT THE IEEE binary64 INSTANCE for whole-unit data. Statements only. Notation as "
+        "in Props/C10float.v (`lrel`, `zhsum`) and Props/C13float.v (`cost_reads`, `zsum_flat`); `zliqsum zf zh` is the sum over "
+        "the positions of quantity x bid - zf. Depends on the specification axioms the standard library declares for primitive "
+        "floats / 63-bit integers and the classical reals (Flocq).", IMPF11, [
+        ("c11f_position_value", "position_value_float", "A position is valued at quantity x the last seen bid — the float product is the float of the integer product.", True),
+        ("c11f_total_value", "total_value_float", "Total value = cash + sum of position values, exactly, for every iteration order of the holdings …", True),
+        ("c11f_total_value_any_order", "total_value_order_float", "… hence the SAME float (Leibniz equality, signs of zero included) for any two iteration orders.", True),
+        ("c11f_liquidation_le_total", "liquidation_le_total_float", "With per-share and flat costs of whole-unit parameters: each position's liquidation value is quantity x bid - flat fees (per-share costs only move the price component, which is not used), the liquidation value is total value minus (number of positions) x flat fees, it never exceeds total value (binary64 comparison), equals it when there is no flat fee or nothing is held, and is strictly less otherwise.", True),
+        ("c11f_liquidation_eq_total_without_costs", "liquidation_eq_total_nocosts_float", "Without trade costs liquidation value and total value are the same float.", True),
+        ("c11f_example", "exv_theorem_instance", "Non-vacuity, instantiated: cash 165, ABC 5 @ 100, BCD 30 @ 10, costs [flat 5; per-share 1]: total 965, liquidation 955, both iteration orders.", True),
+    ])
